@@ -15,7 +15,8 @@ def determinism(chk, args):
     tier = "quick"
     if "--tier" in args:
         tier = args[args.index("--tier") + 1]
-    props = props or [p for p in chk.PROPS if not chk.PROPS[p].get("not_applicable")]
+    # the properties, and the simulator's own scenarios (hash order, async tasks, closures that block)
+    props = props or [p for p in chk.PROPS if not chk.PROPS[p].get("not_applicable")] + ["XHASHORDER", "XSPAWN", "XBLOCK"]
     scratch = tempfile.mkdtemp(prefix="bitasim-det-")
     report = {}
     rc = 0
